@@ -19,10 +19,13 @@ TInit == Init /\ l = 1 /\ ph = "act" /\ progs = <<>> /\ TLCSet(1, 1)
 
 RootKey == <<0, RootId(progs[1])>>
 
-ResetC == /\ cmds' = <<>> /\ tasks' = <<>> /\ ready' = {} /\ run' = NONE /\ reqs' = <<>> /\ joinreg' = {}
+ResetC == /\ cmds' = <<>> /\ tasks' = <<>> /\ ready' = {} /\ run' = NONE /\ reqs' = <<>> /\ joinreg' = <<>>
+          /\ rq' = <<>> /\ sq' = <<>>
 
 \* events of one task appear in the order the task emitted them
-OrderOK(s) == \A i, j \in DOMAIN s : (i < j /\ s[i].o[1] = s[j].o[1] /\ s[i].o[2] = s[j].o[2]) => s[i].o[3] < s[j].o[3]
+OrderOK(s, out) ==
+  LET N(x) == (CHOOSE y \in out : y.o = x.o /\ y.kind = x.kind).n IN
+  \A i, j \in DOMAIN s : (i < j /\ s[i].o[1] = s[j].o[1] /\ s[i].o[2] = s[j].o[2]) => N(s[i]) < N(s[j])
 
 Act ==
   /\ ph = "act" /\ l <= Len(Rec)
@@ -54,9 +57,9 @@ Match ==
   /\ LET out  == cmds[RootKey].out
          effs == {i \in out : i.kind = "eff"}
          evs  == {i \in out : i.kind = "ev"} IN
-     /\ Range(Line.effs) = effs /\ Len(Line.effs) = Cardinality(effs)
-     /\ Range(Line.evs) = evs /\ Len(Line.evs) = Cardinality(evs)
-     /\ OrderOK(Line.effs) /\ OrderOK(Line.evs)
+     /\ Range(Line.effs) = {Strip(i) : i \in effs} /\ Len(Line.effs) = Cardinality(effs)
+     /\ Range(Line.evs) = {Strip(i) : i \in evs} /\ Len(Line.evs) = Cardinality(evs)
+     /\ OrderOK(Line.effs, out) /\ OrderOK(Line.evs, out)
      /\ Line.live = Cardinality(LiveIn(St, RootKey))
      /\ Line.done = (LiveIn(St, RootKey) = {})
   /\ Take(RootKey)
